@@ -67,6 +67,7 @@ FactorScript(id, fmt, lin, setM, setB, k1s, k2s) ==
 Factors == { FactorScript("factors-M-" \o ToString(fmt), fmt, 0, Bound10, {0, -7}, {0}, {0, -2}) : fmt \in 0..2 }
            \cup { FactorScript("factors-B-" \o ToString(fmt), fmt, 0, {1, -3}, Bound10, {0, 1}, {0}) : fmt \in 0..2 }
            \cup { FactorScript("factors-K-" \o ToString(lin), 2, lin, {3}, {-17}, -8..7, -8..7) : lin \in {0, 9} }
+           \cup { FactorScript("factors-BK-" \o ToString(fmt), fmt, 0, {1, 511, -512}, {-512, -511, -215, -214, 214, 215, 496, 511}, {5, 6, 7}, {-8, 0, 7}) : fmt \in {0, 2} }
            \cup (IF Full THEN { FactorScript("factors-MB", 1, 0, Bound10, Bound10, {-1}, {1}) } ELSE {})
 
 \* a converted reading of exactly zero as the first (and a later) reading of a freshly built reader, for every
